@@ -86,10 +86,13 @@ def _jsonable(x, depth=0):
 
 
 class Violation(object):
-    def __init__(self, part, case, message):
+    def __init__(self, part, case, message, prefix=None):
         self.part = part
         self.case = case
         self.message = message
+        # indices of the units this worker process had executed up to and including the violating one:
+        # a violation that needs process-wide state left by EARLIER cases is replayed with them
+        self.prefix = prefix
 
     def sig(self):
         h = hashlib.sha1()
@@ -140,7 +143,9 @@ class Rec(object):
         k = message_class(message)
         self.vclasses[k] += 1
         if self.vclasses[k] <= MAX_VIOL_PER_CLASS and len(self.violations) < MAX_VIOL_PER_WORKER:
-            self.violations.append(Violation(self.part, case, message))
+            sh = getattr(self, "_shard", None)
+            self.violations.append(Violation(self.part, case, message,
+                                             prefix=None if sh is None else list(sh[0][:sh[1] + 1])))
 
     def count(self, key, n=1):
         self.extra[key] += n
@@ -209,8 +214,9 @@ def _run_sharded(part, units, work, nworkers, tmpdir, per_worker_setup=None, uni
                 if per_worker_setup:
                     per_worker_setup(w)
                 signal.signal(signal.SIGALRM, signal.SIG_DFL)
-                for i in idxs:
+                for pos, i in enumerate(idxs):
                     slots[w] = i
+                    rec._shard = (idxs, pos)
                     signal.alarm(UNIT_TIMEOUT)
                     t_unit = time.time()
                     try:
@@ -224,6 +230,8 @@ def _run_sharded(part, units, work, nworkers, tmpdir, per_worker_setup=None, uni
                         rec.extra["max_unit_seconds"] = round(t_unit, 2)
                 slots[w] = -2
                 del rec.tmp
+                if hasattr(rec, "_shard"):
+                    del rec._shard
                 with open(out + ".tmp", "wb") as f:
                     pickle.dump(rec, f, protocol=4)
                 os.rename(out + ".tmp", out)
@@ -316,9 +324,12 @@ class Ctx(object):
         """
         part = Part(name, one, engine)
         self.parts[name] = part
+        part.units = units
+        part.expand = expand
         if self.replay_request is not None:
             return part
         units = list(units)
+        part.units = units
         t0 = time.time()
         global QUIET_WORKERS
         QUIET_WORKERS = bool(getattr(self, "quiet_workers", False))
